@@ -144,6 +144,9 @@ type analysis struct {
 	Cancels []cancelFact
 	// Pages: iterators that turn pages (gofacts.go)
 	Pages []pageTurn
+	// Waits: per handler package, mutexes held across a wait for the peer / taken on the serve
+	// goroutine (waitfacts.go)
+	Waits []*waitFact
 }
 
 func recvName(fd *ast.FuncDecl) string {
@@ -208,6 +211,9 @@ func analyseScope(repo string, scope map[string]func(file string) bool, allowTex
 		an.Cancels = append(an.Cancels, cancelFactsOf(l, scope[rel])...)
 		if rel != "" {
 			an.HeldSends = append(an.HeldSends, heldAcrossSend(l, scope[rel])...)
+			if wf := waitFactsOf(l); wf != nil {
+				an.Waits = append(an.Waits, wf)
+			}
 		}
 		pkgName := l.Pkg.Name()
 		for i, file := range l.Files {
@@ -270,6 +276,7 @@ func Facts(repo string) (string, error) {
 		b.WriteString(leanGoFacts(nil, false))
 		b.WriteString(leanPageTurns(nil, false))
 		b.WriteString(leanHeldSends(nil, false))
+		b.WriteString(leanWaitFacts(nil, false))
 		b.WriteString("def cancels : List (String × Bool) := []\n")
 		b.WriteString("def acceptedSizes : List (String × String × String) := []\n")
 		b.WriteString("end XmppModel.Generated.C09\n")
@@ -305,6 +312,8 @@ func Facts(repo string) (string, error) {
 	b.WriteString(leanGoFacts(an.Gos, true))
 	b.WriteString(leanPageTurns(an.Pages, true))
 	b.WriteString(leanHeldSends(an.HeldSends, true))
+	sort.SliceStable(an.Waits, func(i, j int) bool { return an.Waits[i].Pkg < an.Waits[j].Pkg })
+	b.WriteString(leanWaitFacts(an.Waits, true))
 	b.WriteString("/-- context.With… in scope: (function, is `defer cancel()` the next statement) -/\ndef cancels : List (String × Bool) := [")
 	for i, cf := range an.Cancels {
 		if i > 0 {
